@@ -28,9 +28,9 @@ case_st = st.deferred(lambda: _case())
 @st.composite
 def _case(draw):
     rf = draw(R.rule_file(max_rules=8, depth=2))
-    txns = draw(st.lists(R.txn_for(rf), min_size=2, max_size=4))
+    txns = draw(R.txn_list(rf))
     n = len(rf['rules'])
-    return {'kind': 'rules', 'rf': rf, 'txns': txns, 'rows': draw(lang.rows_case),
+    return {'kind': 'rules', 'rf': rf, 'txns': txns, 'rows': draw(lang.rows_opt),
             'del': draw(st.lists(st.booleans(), min_size=n, max_size=n)),
             'perm': draw(st.permutations(list(range(n)))),
             'ins': draw(st.lists(st.tuples(st.integers(0, n), R.rule(1, tag_only_p=10)).map(list), max_size=2)),
